@@ -196,6 +196,7 @@ func (ex *Exec) assertOne(c *Term, id string) {
 }
 
 func (p *Program) runPath(opt *Options, s *Solver, fn *ssa.Function, prefix []Dec) (res *PathResult, forks [][]Dec) {
+	s.BeginPath()
 	ex := &Exec{P: p, Opt: opt, S: s, prefix: prefix}
 	ex.res = &PathResult{AssertsOK: map[string]int{}, AssertsUnk: map[string]int{}}
 	res = ex.res
@@ -225,7 +226,7 @@ func (p *Program) runPath(opt *Options, s *Solver, fn *ssa.Function, prefix []De
 				want = append(want, o.T)
 			}
 		}
-		r, m := ex.S.Check(ex.pc, want)
+		r, m := ex.S.Check(ex.pc, nil, want)
 		if r == Sat {
 			res.Model = ex.modelToInputs(m)
 			res.Observed = map[string]string{}
